@@ -91,6 +91,8 @@ C05(e, pre, post) ==
                "C05: a failed transaction changed governance parameters")
        \cup If(pre.feeSum # post.feeSum, "C05: a fee was collected for a failed transaction")
        \cup If(HasEvm(pre) /\ HasEvm(post) /\ pre.evm # post.evm, "C05: a failed transaction changed contract code or storage")
+       \cup If(pre.vol.limiter # post.vol.limiter,
+               "C05: a failed transaction consumed part of the block's stake-change limits (later transactions do not observe the unchanged state)")
   ELSE {}
 
 ---------------------------------------------------------------------------
@@ -274,6 +276,10 @@ C12(e, pre, post, mon) ==
       \cup If(entered # {}, "C12: a stake started unbonding at the end of a block")
       \cup If(\E s \in kept : s.refund <= h /\ s.key \in mon.frozenC,
               "C12: a matured unbonding stake was not refunded at the end of the block")
+      \cup If(left # {} /\ \E b \in DOMAIN pre.accts \cup DOMAIN post.accts :
+                 Bal(post, b) # BAdd(Bal(pre, b), BAdd(PowerAmount(SumPow(SelectSeq(pre.frozen, LAMBDA s : s \in left /\ s.from = b))),
+                                                      IF b = mon.proposer THEN pre.feeSum ELSE <<>>)),
+              "C12: a matured stake was not credited back to its owner in full (power x 10^18), exactly once and to nobody else")
    ELSE {})
   \cup
   (IF e.ev \in {"Commit", "Restart", "CheckTx"} THEN If(entered # {} \/ left # {}, "C12: unbonding stakes changed outside block execution") ELSE {})
